@@ -298,6 +298,34 @@ theorem redo_idempotent (pg : Pages) (w : List Frame) : redo (redo pg w) w = red
       simp [this]
   exact key w (redo pg w) pg (fun f p h => untouched w pg f p h)
 
+/-- image of the newest frame of page `(f, p)` in the WAL, if any -/
+def lastImg (w : List Frame) (f p : Nat) : Option Nat :=
+  (w.reverse.find? (fun fr => fr.file == f && fr.page == p)).map (·.img)
+
+/-- what recovery computes, page by page (last writer wins): a page with frames gets the image of
+its NEWEST frame, a page without frames keeps its on-disk content -/
+theorem redo_last_writer (w : List Frame) : ∀ (pg : Pages) (f p : Nat),
+    redo pg w f p = (lastImg w f p).getD (pg f p) := by
+  induction w with
+  | nil => intro pg f p; rfl
+  | cons fr w ih =>
+    intro pg f p
+    rw [redo_cons, ih]
+    simp only [lastImg, List.reverse_cons, List.find?_append, List.find?_cons, List.find?_nil]
+    cases h : w.reverse.find? (fun fr => fr.file == f && fr.page == p) with
+    | some x => simp
+    | none =>
+      simp only [Option.map_none, Option.getD_none, Option.none_or, setPg_apply]
+      by_cases hq : f = fr.file ∧ p = fr.page
+      · simp [hq]
+      · have : (fr.file == f && fr.page == p) = false := by
+          simp only [Bool.and_eq_false_imp, beq_iff_eq, beq_eq_false_iff_ne]
+          intro h1 h2; exact hq ⟨h1.symm, h2.symm⟩
+        simp [hq, this]
+
+example : redo Pages.empty [⟨1, 1, 7, false⟩, ⟨1, 2, 9, false⟩, ⟨1, 1, 8, false⟩] 1 1 = 8 := by
+  rw [redo_last_writer]; decide
+
 /-- C01, power-loss model, for every trace the WAL protocol produces and every crash index: recovery
 yields the page state after the acknowledged statements, or that plus the complete in-flight one. -/
 theorem durable_power (stmts : List Stmt) (k : Nat) :
